@@ -318,9 +318,9 @@ def setup(ctx):
 
 
 def run(ctx):
-    ctx.forall(ctx.p_any, ctx.scale(7200, 40000), batch=50)
+    ctx.forall(ctx.p_any, ctx.scale(7200, 200000), batch=50)
     for shp in DG.SHAPES:
-        ctx.forall(ctx.p_shapes[shp], ctx.scale(300, 2500), batch=30)
+        ctx.forall(ctx.p_shapes[shp], ctx.scale(300, 12500), batch=30)
 
 
 if __name__ == "__main__":
